@@ -47,6 +47,7 @@ Definition spec_C03_ctor (c : ccase) (ev : list cevent) (out : option nat) : boo
   let invs := filter is_inv ev in
   let expected := check_invs (verdict (cc_need c)) (all_invs (cc_chain c) (cc_k c)) final in
   (* nothing is evaluated while the object is under construction *)
-  forallb (fun e => negb (is_inv e)) (firstn (S (last_init_index ev 0 0)) ev)
+  (if existsb is_init ev then forallb (fun e => negb (is_inv e)) (firstn (S (last_init_index ev 0 0)) ev)
+   else true (* no class of the chain has a constructor body *))
   && cevents_eqb invs (if has_invs (cc_chain c) (cc_k c) then fst expected else [])
   && oid_eqb out (if has_invs (cc_chain c) (cc_k c) then snd expected else None).
